@@ -72,10 +72,17 @@ async def scenario(loop, events, seed):
                 s.t.peer_close()
                 return None
             d = json.loads(body)
+            refused = False
             for c in d["characteristics"]:
                 if "ev" in c:
                     s.sub_log.append((c["aid"], c["iid"], bool(c["ev"])))
+                    # `subs` = what this session was asked to notify (the model's view); instance ids from 90 up do not
+                    # support events on this accessory: it says so in a multi-status reply that lists EVERY characteristic
                     (s.subs.add if c["ev"] else s.subs.discard)((c["aid"], c["iid"]))
+                    refused = refused or (c["ev"] and c["iid"] >= 90)
+            if refused:
+                rows = [{"aid": c["aid"], "iid": c["iid"], "status": (-70406 if c["iid"] >= 90 else 0)} for c in d["characteristics"]]
+                return http(json.dumps({"characteristics": rows}).encode(), b"application/hap+json", code=b"207 Multi-Status")
             return b"HTTP/1.1 204 No Content\r\n\r\n"
         return http(b"{}", b"application/hap+json")
     acc.responder = responder
@@ -129,9 +136,15 @@ async def scenario(loop, events, seed):
             elif t.exception() is not None:
                 problems.append(("call-raised", f"subscribe/unsubscribe raised {type(t.exception()).__name__}"))
 
+        wanted_ref = set()  # what the caller has subscribed to and not successfully unsubscribed from (kept by the harness)
         for ev in events:
             f = ev.split(":", 1)
             k = f[0]
+            if k in ("sub", "cutsub"):
+                wanted_ref |= set(parse_chs(f[1]))
+            elif k == "unsub":
+                wanted_ref -= set(parse_chs(f[1]))  # this accessory accepts every unsubscription
+            n_sessions_before = len(acc.order)
             was_connected = bool(p.is_connected)
             was_supported = bool(p.supports_subscribe)
             before_active = active_ids(p, cb_ids)
@@ -182,6 +195,9 @@ async def scenario(loop, events, seed):
             if k == "conn" and not was_connected and p.is_connected:
                 if p.supports_subscribe and not set(p.subscriptions) <= set(reg):
                     problems.append(("not-resubscribed", f"after reconnect the accessory was not asked again for {show_chs(set(p.subscriptions) - set(reg))}"))
+                asked = {(a, i) for a, i, e in acc.sessions[cur].sub_log if e} if cur is not None else set()
+                if p.supports_subscribe and not wanted_ref <= asked:
+                    problems.append(("not-resubscribed", f"after reconnect the accessory was asked for events of {show_chs(asked)} only; the caller's subscriptions {show_chs(wanted_ref - asked)} were never requested again"))
                 for lid in before_active:
                     if logs[lid][before_len[lid]:] != [[]]:
                         problems.append(("not-told-connection-back", f"listener {lid} got {logs[lid][before_len[lid]:]} instead of one empty 'connection is back' event"))
@@ -213,7 +229,7 @@ def model_line(events):
     return "sb.run " + " ".join(e.replace(":n", ":n").replace(" ", "") for e in events)
 
 
-ALPHA = ["sub:1.10,2.20,1.11", "sub:2.21", "unsub:1.10", "unsub:2.20,2.21", "cutsub:1.12", "drop", "conn", "ladd:1:n", "ladd:2:x", "ladd:3:rm", "ladd:4:add~5", "lrem:1",
+ALPHA = ["sub:1.10,2.20,1.11", "sub:2.21", "sub:1.12,1.90", "unsub:1.10", "unsub:2.20,2.21", "cutsub:1.12", "drop", "conn", "ladd:1:n", "ladd:2:x", "ladd:3:rm", "ladd:4:add~5", "lrem:1",
          "ev:c=1.10", "ev:c=1.10,2.20|c=1.11", "ev:empty|c=2.21|notjson", "ev:notutf8|c=1.10"]
 
 
@@ -237,7 +253,7 @@ def gen_random(rng):
     evs = []
     for _ in range(rng.randrange(4, 30)):
         r = rng.random()
-        chs = ",".join(f"{rng.choice([1, 2])}.{rng.choice([10, 11, 12, 20, 21])}" for _ in range(rng.randrange(1, 5)))
+        chs = ",".join(f"{rng.choice([1, 2])}.{rng.choice([10, 11, 12, 20, 21, 90])}" for _ in range(rng.randrange(1, 5)))
         if r < 0.18:
             evs.append("sub:" + chs)
         elif r < 0.28:
